@@ -957,5 +957,405 @@ theorem value_extend (s : Bool) (buf1 suf : Buf) (ht : Term suf) : ∀ f,
           · simp [hcol] at h
       · simp [hq] at h
 
+/-! ### the tree a text denotes does not depend on what follows the value either -/
+
+theorem number_progress (buf : Buf) (i e : Nat) (h : number buf i = some e) : i < e := by
+  obtain ⟨c, hb1, hdc, h0, hlt, hbind⟩ := De.token_head buf i e _ rfl h
+  generalize hi1 : (if buf[i]? = some 45 then i + 1 else i) = i1 at hb1 h0 hlt hbind
+  have hil : i ≤ i1 := by rw [← hi1]; split <;> omega
+  cases hf : frac buf (skipDigits buf i1) with
+  | none => rw [hf] at hbind; simp at hbind
+  | some k =>
+    rw [hf, Option.bind_some] at hbind
+    have h1 := Spec.frac_ge buf _ k hf
+    have h2 := Spec.expo_ge buf k e hbind
+    omega
+
+theorem tree_progress (l : Bool) (buf : Buf) : ∀ f,
+    (∀ i j e, tree l f buf i = some (j, e) → i < e) ∧
+    (∀ i xs e, treeElems l f buf i = some (xs, e) → i < e) ∧
+    (∀ i ms e, treeMembers l f buf i = some (ms, e) → i < e) := by
+  intro f
+  induction f with
+  | zero => refine ⟨?_, ?_, ?_⟩ <;> (intro i j e h; simp [tree, treeElems, treeMembers] at h)
+  | succ f ih =>
+    obtain ⟨ih1, ih2, ih3⟩ := ih
+    refine ⟨?_, ?_, ?_⟩
+    · intro i j e h
+      unfold tree at h
+      cases hb : buf[i]? with
+      | none => rw [hb] at h; simp at h
+      | some c =>
+        rw [hb] at h
+        simp only at h
+        split at h
+        · obtain ⟨e', he', hr⟩ := Option.map_eq_some_iff.mp h
+          have := number_progress buf i e' he'
+          simp only [Prod.mk.injEq] at hr; omega
+        · split at h
+          · obtain ⟨p, hp, hr⟩ := Option.map_eq_some_iff.mp h
+            have := (stringS_progress l buf (i + 1) p hp).1
+            simp only [Prod.mk.injEq] at hr; omega
+          · split at h
+            · have := skipWs_ge buf (i + 1)
+              split at h
+              · simp only [Option.some.injEq, Prod.mk.injEq] at h; omega
+              · obtain ⟨p, hp, hr⟩ := Option.map_eq_some_iff.mp h
+                have := ih3 _ p.1 p.2 hp
+                simp only [Prod.mk.injEq] at hr; omega
+            · split at h
+              · have := skipWs_ge buf (i + 1)
+                split at h
+                · simp only [Option.some.injEq, Prod.mk.injEq] at h; omega
+                · obtain ⟨p, hp, hr⟩ := Option.map_eq_some_iff.mp h
+                  have := ih2 _ p.1 p.2 hp
+                  simp only [Prod.mk.injEq] at hr; omega
+              · have lp : ∀ bs e', lit buf (i + 1) bs = some e' → i < e' := by
+                  intro bs e' hl
+                  have := litAt_ge buf bs (i + 1) e' hl
+                  omega
+                repeat' split at h
+                all_goals first
+                  | (obtain ⟨e', he', hr⟩ := Option.map_eq_some_iff.mp h
+                     have := lp _ e' he'
+                     simp only [Prod.mk.injEq] at hr; omega)
+                  | (simp at h)
+    · intro i xs e h
+      unfold treeElems at h
+      cases ht : tree l f buf i with
+      | none => rw [ht] at h; simp at h
+      | some p =>
+        obtain ⟨x, e1⟩ := p
+        rw [ht] at h
+        simp only at h
+        have h1 := ih1 i x e1 ht
+        have h2 := skipWs_ge buf e1
+        split at h
+        · simp only [Option.some.injEq, Prod.mk.injEq] at h; omega
+        · split at h
+          · obtain ⟨q, hq, hr⟩ := Option.map_eq_some_iff.mp h
+            have := ih2 _ q.1 q.2 hq
+            have := skipWs_ge buf (skipWs buf e1 + 1)
+            simp only [Prod.mk.injEq] at hr; omega
+          · simp at h
+    · intro i ms e h
+      unfold treeMembers at h
+      split at h
+      · cases hs : stringS l buf (i + 1) with
+        | none => rw [hs] at h; simp at h
+        | some p =>
+          obtain ⟨k, e1⟩ := p
+          rw [hs] at h
+          simp only at h
+          have h0 := (stringS_progress l buf (i + 1) (k, e1) hs).1
+          simp only at h0
+          have g1 := skipWs_ge buf e1
+          split at h
+          · cases ht : tree l f buf (skipWs buf (skipWs buf e1 + 1)) with
+            | none => rw [ht] at h; simp at h
+            | some q =>
+              obtain ⟨x, e2⟩ := q
+              rw [ht] at h
+              simp only at h
+              have h1 := ih1 _ x e2 ht
+              have g2 := skipWs_ge buf (skipWs buf e1 + 1)
+              have g3 := skipWs_ge buf e2
+              split at h
+              · simp only [Option.some.injEq, Prod.mk.injEq] at h; omega
+              · split at h
+                · obtain ⟨r, hr1, hr⟩ := Option.map_eq_some_iff.mp h
+                  have := ih3 _ r.1 r.2 hr1
+                  have := skipWs_ge buf (skipWs buf e2 + 1)
+                  simp only [Prod.mk.injEq] at hr; omega
+                · simp at h
+          · simp at h
+      · simp at h
+
+/-- **the tree of a value that ends inside `buf1` is the same with and without the bytes behind `buf1`** -/
+theorem tree_prefix (l : Bool) (buf1 suf : Buf) : ∀ f,
+    (∀ w j e, tree l f (buf1 ++ suf) w = some (j, e) → e ≤ buf1.size → tree l f buf1 w = some (j, e)) ∧
+    (∀ w xs e, treeElems l f (buf1 ++ suf) w = some (xs, e) → e ≤ buf1.size → treeElems l f buf1 w = some (xs, e)) ∧
+    (∀ w ms e, treeMembers l f (buf1 ++ suf) w = some (ms, e) → e ≤ buf1.size → treeMembers l f buf1 w = some (ms, e)) := by
+  intro f
+  induction f with
+  | zero => refine ⟨?_, ?_, ?_⟩ <;> (intro w j e h; simp [tree, treeElems, treeMembers] at h)
+  | succ f ih =>
+    obtain ⟨ih1, ih2, ih3⟩ := ih
+    have ws : ∀ i, skipWs (buf1 ++ suf) i < buf1.size → skipWs buf1 i = skipWs (buf1 ++ suf) i :=
+      fun i hl => skipWs_prefix buf1 suf _ i rfl hl
+    obtain ⟨tp1, tp2, tp3⟩ := tree_progress l (buf1 ++ suf) f
+    refine ⟨?_, ?_, ?_⟩
+    · intro w j e h hle
+      have hw := (tree_progress l (buf1 ++ suf) (f + 1)).1 w j e h
+      have hwl : w < buf1.size := by omega
+      unfold tree at h ⊢
+      rw [← get_pre buf1 suf w hwl]
+      cases hb : (buf1 ++ suf)[w]? with
+      | none => rw [hb] at h; simp at h
+      | some c =>
+        rw [hb] at h
+        simp only at h ⊢
+        by_cases h1 : (c == 45 || isDigit c) = true
+        · simp only [h1, if_true] at h ⊢
+          obtain ⟨e', he', hr⟩ := Option.map_eq_some_iff.mp h
+          simp only [Prod.mk.injEq] at hr
+          rw [number_prefix buf1 suf w e' he' (by omega)]
+          obtain ⟨hr1, hr2⟩ := hr
+          subst hr1; subst hr2; simp
+        · simp only [h1, Bool.false_eq_true, if_false] at h ⊢
+          by_cases h2 : (c == 34) = true
+          · simp only [h2, if_true] at h ⊢
+            obtain ⟨p, hp, hr⟩ := Option.map_eq_some_iff.mp h
+            simp only [Prod.mk.injEq] at hr
+            rw [stringS_prefix l buf1 suf _ (w + 1) p rfl hp (by omega)]
+            obtain ⟨hr1, hr2⟩ := hr
+            subst hr1; subst hr2; simp
+          · simp only [h2, Bool.false_eq_true, if_false] at h ⊢
+            by_cases h3 : (c == 123) = true
+            · simp only [h3, if_true] at h ⊢
+              by_cases hcl : (buf1 ++ suf)[skipWs (buf1 ++ suf) (w + 1)]? = some 125
+              · simp only [hcl, if_true, Option.some.injEq, Prod.mk.injEq] at h
+                have hjl : skipWs (buf1 ++ suf) (w + 1) < buf1.size := by omega
+                rw [ws (w + 1) hjl, ← get_pre buf1 suf _ hjl, hcl]
+                simp only [if_true, Option.some.injEq, Prod.mk.injEq]; exact h
+              · simp only [hcl, if_false] at h
+                obtain ⟨p, hp, hr⟩ := Option.map_eq_some_iff.mp h
+                simp only [Prod.mk.injEq] at hr
+                have hpr := tp3 _ p.1 p.2 hp
+                have hjl : skipWs (buf1 ++ suf) (w + 1) < buf1.size := by omega
+                rw [ws (w + 1) hjl, ← get_pre buf1 suf _ hjl]
+                simp only [hcl, if_false]
+                rw [ih3 _ p.1 p.2 hp (by omega)]
+                obtain ⟨hr1, hr2⟩ := hr
+                subst hr1; subst hr2; simp
+            · simp only [h3, Bool.false_eq_true, if_false] at h ⊢
+              by_cases h4 : (c == 91) = true
+              · simp only [h4, if_true] at h ⊢
+                by_cases hcl : (buf1 ++ suf)[skipWs (buf1 ++ suf) (w + 1)]? = some 93
+                · simp only [hcl, if_true, Option.some.injEq, Prod.mk.injEq] at h
+                  have hjl : skipWs (buf1 ++ suf) (w + 1) < buf1.size := by omega
+                  rw [ws (w + 1) hjl, ← get_pre buf1 suf _ hjl, hcl]
+                  simp only [if_true, Option.some.injEq, Prod.mk.injEq]; exact h
+                · simp only [hcl, if_false] at h
+                  obtain ⟨p, hp, hr⟩ := Option.map_eq_some_iff.mp h
+                  simp only [Prod.mk.injEq] at hr
+                  have hpr := tp2 _ p.1 p.2 hp
+                  have hjl : skipWs (buf1 ++ suf) (w + 1) < buf1.size := by omega
+                  rw [ws (w + 1) hjl, ← get_pre buf1 suf _ hjl]
+                  simp only [hcl, if_false]
+                  rw [ih2 _ p.1 p.2 hp (by omega)]
+                  obtain ⟨hr1, hr2⟩ := hr
+                  subst hr1; subst hr2; simp
+              · simp only [h4, Bool.false_eq_true, if_false] at h ⊢
+                have lp : ∀ bs (v : Json), (lit (buf1 ++ suf) (w + 1) bs).map (fun e => (v, e)) = some (j, e) →
+                    (lit buf1 (w + 1) bs).map (fun e => (v, e)) = some (j, e) := by
+                  intro bs v hm
+                  obtain ⟨e', he', hr⟩ := Option.map_eq_some_iff.mp hm
+                  simp only [Prod.mk.injEq] at hr
+                  unfold lit at *
+                  rw [litAt_prefix buf1 suf bs (w + 1) e' he' (by omega)]
+                  obtain ⟨hr1, hr2⟩ := hr
+                  subst hr1; subst hr2; simp
+                by_cases h5 : (c == 116) = true
+                · simp only [h5, if_true] at h ⊢; exact lp _ _ h
+                · simp only [h5, Bool.false_eq_true, if_false] at h ⊢
+                  by_cases h6 : (c == 102) = true
+                  · simp only [h6, if_true] at h ⊢; exact lp _ _ h
+                  · simp only [h6, Bool.false_eq_true, if_false] at h ⊢
+                    by_cases h7 : (c == 110) = true
+                    · simp only [h7, if_true] at h ⊢; exact lp _ _ h
+                    · simp [h7] at h
+    · intro w xs e h hle
+      unfold treeElems at h ⊢
+      cases ht : tree l f (buf1 ++ suf) w with
+      | none => rw [ht] at h; simp at h
+      | some p =>
+        obtain ⟨x, e1⟩ := p
+        rw [ht] at h
+        simp only at h
+        have g2 := skipWs_ge (buf1 ++ suf) e1
+        by_cases hcl : (buf1 ++ suf)[skipWs (buf1 ++ suf) e1]? = some 93
+        · simp only [hcl, if_true, Option.some.injEq, Prod.mk.injEq] at h
+          have hjl : skipWs (buf1 ++ suf) e1 < buf1.size := by omega
+          rw [ih1 w x e1 ht (by omega)]
+          simp only
+          rw [ws e1 hjl, ← get_pre buf1 suf _ hjl, hcl]
+          simp only [if_true, Option.some.injEq, Prod.mk.injEq]; exact h
+        · simp only [hcl, if_false] at h
+          by_cases hco : (buf1 ++ suf)[skipWs (buf1 ++ suf) e1]? = some 44
+          · simp only [hco, if_true] at h
+            obtain ⟨q, hq, hr⟩ := Option.map_eq_some_iff.mp h
+            simp only [Prod.mk.injEq] at hr
+            have hpr := tp2 _ q.1 q.2 hq
+            have g3 := skipWs_ge (buf1 ++ suf) (skipWs (buf1 ++ suf) e1 + 1)
+            have hjl : skipWs (buf1 ++ suf) e1 < buf1.size := by omega
+            have hjl2 : skipWs (buf1 ++ suf) (skipWs (buf1 ++ suf) e1 + 1) < buf1.size := by omega
+            rw [ih1 w x e1 ht (by omega)]
+            simp only
+            rw [ws e1 hjl, ← get_pre buf1 suf _ hjl]
+            rw [hco]
+            simp only [Option.some.injEq, show ¬ ((44 : UInt8) = 93) by decide, if_false, if_true]
+            rw [ws _ hjl2, ih2 _ q.1 q.2 hq (by omega)]
+            obtain ⟨hr1, hr2⟩ := hr
+            subst hr1; subst hr2; simp
+          · simp [hco] at h
+    · intro w ms e h hle
+      have hw := (tree_progress l (buf1 ++ suf) (f + 1)).2.2 w ms e h
+      have hwl : w < buf1.size := by omega
+      unfold treeMembers at h ⊢
+      rw [← get_pre buf1 suf w hwl]
+      by_cases hq : (buf1 ++ suf)[w]? = some 34
+      · simp only [hq, if_true] at h ⊢
+        cases hs : stringS l (buf1 ++ suf) (w + 1) with
+        | none => rw [hs] at h; simp at h
+        | some p =>
+          obtain ⟨k, e1⟩ := p
+          rw [hs] at h
+          simp only at h
+          by_cases hcol : (buf1 ++ suf)[skipWs (buf1 ++ suf) e1]? = some 58
+          · simp only [hcol, if_true] at h
+            cases ht : tree l f (buf1 ++ suf) (skipWs (buf1 ++ suf) (skipWs (buf1 ++ suf) e1 + 1)) with
+            | none => rw [ht] at h; simp at h
+            | some q =>
+              obtain ⟨x, e2⟩ := q
+              rw [ht] at h
+              simp only at h
+              have hpv := tp1 _ x e2 ht
+              have g1 := skipWs_ge (buf1 ++ suf) e1
+              have g2 := skipWs_ge (buf1 ++ suf) (skipWs (buf1 ++ suf) e1 + 1)
+              have g3 := skipWs_ge (buf1 ++ suf) e2
+              have he2 : skipWs (buf1 ++ suf) e2 < buf1.size := by
+                by_cases hcl : (buf1 ++ suf)[skipWs (buf1 ++ suf) e2]? = some 125
+                · simp only [hcl, if_true, Option.some.injEq, Prod.mk.injEq] at h; omega
+                · simp only [hcl, if_false] at h
+                  by_cases hco : (buf1 ++ suf)[skipWs (buf1 ++ suf) e2]? = some 44
+                  · simp only [hco, if_true] at h
+                    obtain ⟨r, hr1, hr⟩ := Option.map_eq_some_iff.mp h
+                    simp only [Prod.mk.injEq] at hr
+                    have := tp3 _ r.1 r.2 hr1
+                    have := skipWs_ge (buf1 ++ suf) (skipWs (buf1 ++ suf) e2 + 1)
+                    omega
+                  · simp [hco] at h
+              have hk1 : skipWs (buf1 ++ suf) e1 < buf1.size := by omega
+              have hk2 : skipWs (buf1 ++ suf) (skipWs (buf1 ++ suf) e1 + 1) < buf1.size := by omega
+              rw [stringS_prefix l buf1 suf _ (w + 1) (k, e1) rfl hs (by simp only; omega)]
+              simp only
+              rw [ws e1 hk1, ← get_pre buf1 suf _ hk1]
+              simp only [hcol, if_true]
+              rw [ws _ hk2, ih1 _ x e2 ht (by omega)]
+              simp only
+              rw [ws e2 he2, ← get_pre buf1 suf _ he2]
+              by_cases hcl : (buf1 ++ suf)[skipWs (buf1 ++ suf) e2]? = some 125
+              · simp only [hcl, if_true, Option.some.injEq, Prod.mk.injEq] at h ⊢; exact h
+              · simp only [hcl, if_false] at h ⊢
+                by_cases hco : (buf1 ++ suf)[skipWs (buf1 ++ suf) e2]? = some 44
+                · simp only [hco, if_true] at h ⊢
+                  obtain ⟨r, hr1, hr⟩ := Option.map_eq_some_iff.mp h
+                  simp only [Prod.mk.injEq] at hr
+                  have hp := tp3 _ r.1 r.2 hr1
+                  have hjl2 : skipWs (buf1 ++ suf) (skipWs (buf1 ++ suf) e2 + 1) < buf1.size := by omega
+                  rw [ws _ hjl2, ih3 _ r.1 r.2 hr1 (by omega)]
+                  obtain ⟨hr1, hr2⟩ := hr
+                  subst hr1; subst hr2; simp
+                · simp [hco] at h
+          · simp [hcol] at h
+      · simp [hq] at h
+
+/-- more fuel does not change the tree -/
+theorem tree_mono (l : Bool) (buf : Buf) : ∀ f,
+    (∀ i r, tree l f buf i = some r → tree l (f + 1) buf i = some r) ∧
+    (∀ i r, treeElems l f buf i = some r → treeElems l (f + 1) buf i = some r) ∧
+    (∀ i r, treeMembers l f buf i = some r → treeMembers l (f + 1) buf i = some r) := by
+  intro f
+  induction f with
+  | zero => refine ⟨?_, ?_, ?_⟩ <;> (intro i r h; simp [tree, treeElems, treeMembers] at h)
+  | succ f ih =>
+    obtain ⟨ih1, ih2, ih3⟩ := ih
+    refine ⟨?_, ?_, ?_⟩
+    · intro i r h
+      unfold tree at h ⊢
+      cases hb : buf[i]? with
+      | none => rw [hb] at h; simp at h
+      | some c =>
+        rw [hb] at h
+        simp only at h ⊢
+        by_cases h1 : (c == 45 || isDigit c) = true
+        · simp only [h1, if_true] at h ⊢; exact h
+        · simp only [h1, Bool.false_eq_true, if_false] at h ⊢
+          by_cases h2 : (c == 34) = true
+          · simp only [h2, if_true] at h ⊢; exact h
+          · simp only [h2, Bool.false_eq_true, if_false] at h ⊢
+            by_cases h3 : (c == 123) = true
+            · simp only [h3, if_true] at h ⊢
+              by_cases hcl : buf[skipWs buf (i + 1)]? = some 125
+              · simp only [hcl, if_true] at h ⊢; exact h
+              · simp only [hcl, if_false] at h ⊢
+                obtain ⟨p, hp, hr⟩ := Option.map_eq_some_iff.mp h
+                rw [ih3 _ p hp]; simp only [Option.map_some]; rw [hr]
+            · simp only [h3, Bool.false_eq_true, if_false] at h ⊢
+              by_cases h4 : (c == 91) = true
+              · simp only [h4, if_true] at h ⊢
+                by_cases hcl : buf[skipWs buf (i + 1)]? = some 93
+                · simp only [hcl, if_true] at h ⊢; exact h
+                · simp only [hcl, if_false] at h ⊢
+                  obtain ⟨p, hp, hr⟩ := Option.map_eq_some_iff.mp h
+                  rw [ih2 _ p hp]; simp only [Option.map_some]; rw [hr]
+              · simp only [h4, Bool.false_eq_true, if_false] at h ⊢; exact h
+    · intro i r h
+      unfold treeElems at h ⊢
+      cases ht : tree l f buf i with
+      | none => rw [ht] at h; simp at h
+      | some p =>
+        rw [ht] at h
+        rw [ih1 i p ht]
+        simp only at h ⊢
+        split
+        · rename_i hc; simp only [hc, if_true] at h; exact h
+        · rename_i hc
+          simp only [hc, if_false] at h
+          split
+          · rename_i hco
+            simp only [hco, if_true] at h
+            obtain ⟨q, hq, hr⟩ := Option.map_eq_some_iff.mp h
+            rw [ih2 _ q hq]; simp only [Option.map_some]; rw [hr]
+          · rename_i hco; simp [hco] at h
+    · intro i r h
+      unfold treeMembers at h ⊢
+      split
+      · rename_i hq
+        simp only [hq, if_true] at h
+        cases hs : stringS l buf (i + 1) with
+        | none => rw [hs] at h; simp at h
+        | some p =>
+          rw [hs] at h
+          simp only at h ⊢
+          split
+          · rename_i hcol
+            simp only [hcol, if_true] at h
+            cases ht : tree l f buf (skipWs buf (skipWs buf p.2 + 1)) with
+            | none => rw [ht] at h; simp at h
+            | some q =>
+              rw [ht] at h
+              rw [ih1 _ q ht]
+              simp only at h ⊢
+              split
+              · rename_i hc; simp only [hc, if_true] at h; exact h
+              · rename_i hc
+                simp only [hc, if_false] at h
+                split
+                · rename_i hco
+                  simp only [hco, if_true] at h
+                  obtain ⟨r2, hr2, hr⟩ := Option.map_eq_some_iff.mp h
+                  rw [ih3 _ r2 hr2]; simp only [Option.map_some]; rw [hr]
+                · rename_i hco; simp [hco] at h
+          · rename_i hcol; simp [hcol] at h
+      · rename_i hq; simp [hq] at h
+
+theorem tree_mono_le (l : Bool) (buf : Buf) (f g i : Nat) (r : Json × Nat) (hfg : f ≤ g) (h : tree l f buf i = some r) :
+    tree l g buf i = some r := by
+  induction hfg with
+  | refl => exact h
+  | step _ ih => exact (tree_mono l buf _).1 i r ih
+
 end GrammarPad
 end Sonic
